@@ -372,7 +372,7 @@ func countersCompaction(c *core.Ctx) {
 				if !isBin || bo.Op.String() != "+" || core.Key(bo.Y) != "1" {
 					continue
 				}
-				if ph, isPhi := bo.X.(*ssa.Phi); isPhi && ph.Comment == "freePort" {
+				if ph, isPhi := bo.X.(*ssa.Phi); isPhi && (ph.Comment == "freePort" || strings.Contains(core.Key(ph), "RangeStart")) {
 					ok = guardedBy(bo, has(".LocalPort)", " == "), true)
 				}
 			}
